@@ -5,6 +5,8 @@ import (
 	"runtime"
 	"strings"
 
+	"simrt"
+
 	"github.com/jsightapi/jsight-api-core/jerr"
 	"github.com/jsightapi/jsight-api-core/kit"
 	"github.com/jsightapi/jsight-schema-core/fs"
@@ -29,12 +31,15 @@ type Outcome struct {
 	Err      *ErrInfo `json:"err,omitempty"`
 	BadValue string   `json:"bad_value,omitempty"` // result is neither a catalog nor a structured error
 	StepLim  bool     `json:"step_limit,omitempty"`
+	Deadlock string   `json:"deadlock,omitempty"` // goroutines started by the build itself cannot make progress
 	japi     *kit.JApi
 }
 
 // Class is a short label of the outcome.
 func (o *Outcome) Class() string {
 	switch {
+	case o.Deadlock != "":
+		return "deadlock"
 	case o.StepLim:
 		return "step-limit"
 	case o.Panic != "":
@@ -51,6 +56,8 @@ func (o *Outcome) Class() string {
 // Text is the canonical, comparable rendering of a build outcome (C06).
 func (o *Outcome) Text() string {
 	switch {
+	case o.Deadlock != "":
+		return "DEADLOCK " + o.Deadlock
 	case o.StepLim:
 		return "STEP-LIMIT"
 	case o.Panic != "":
@@ -100,7 +107,32 @@ func topRepoFrame() string {
 	}
 }
 
+// taskSeed seeds the scheduler for builds and accessor calls that are executed as a single
+// task: if the code under test starts goroutines of its own (`go` statements are routed to
+// simrt.Go), they become tasks and their interleaving is decided by this seed instead of by
+// the Go runtime. Engines set it per repetition / per call.
+var taskSeed uint64
+
+// asTask runs f as the only initial task of a simulated run, unless a simulation is already
+// attached (concurrent engines call builds from inside their own tasks). Returns the
+// scheduler's deadlock description, if any.
+func asTask(f func()) string {
+	if simrt.Active() {
+		f()
+		return ""
+	}
+	rep := simrt.Run(simrt.Config{Seed: taskSeed, Strategy: int(taskSeed % simrt.NumStrategies), SwitchDen: 3, ChangePoints: 2, Horizon: 200,
+		Pool: simrt.CurrentPoolConfig(), KeepPool: true}, f)
+	return rep.Deadlock
+}
+
 func guard(o *Outcome, f func() (kit.JApi, *jerr.JApiError)) {
+	if dl := asTask(func() { guardInner(o, f) }); dl != "" {
+		o.Deadlock = dl
+	}
+}
+
+func guardInner(o *Outcome, f func() (kit.JApi, *jerr.JApiError)) {
 	defer func() {
 		if r := recover(); r != nil {
 			if _, ok := r.(stepLimit); ok {
